@@ -163,6 +163,8 @@ void eval_factorization(Ctx &x, int opi, const OpSpec &op, long info, bool check
         }
         if (ri.singular) { o.excl["ref_singular"]++; return; }
         if (ri.cond1 > 0.1L / eps) { o.excl["ill_conditioned_info_gt0"]++; return; }
+        // with the threshold (nearly) switched off, tiny pivots are accepted and catastrophic growth can produce an exact zero later
+        if (op.x.u < 0.01 && op.kind != OP_GSSV) { o.excl["weak_pivoting_info_gt0"]++; return; }
         add_viol(o, "C01", "info_nonzero_on_nonsingular", fmt("info=%ld cond1=%.3Le", info, ri.cond1), opi, "info_nonzero_on_nonsingular");
         return;
     }
@@ -662,6 +664,11 @@ Outcome run_case(Case &c, const RunnerOpts &ro) {
 
     SvxState svx_state;
     bool last_fact_ok = false;
+    bool leakprof = c.profile == "leak";
+    if (leakprof) sim::forget_live_blocks();
+    int reps = leakprof ? 2 : 1;
+    size_t live_after_rep[2] = {0, 0};
+    for (int rep = 0; rep < reps; ++rep) {
     for (int opi = 0; opi < (int)c.ops.size(); ++opi) {
         OpSpec &op = c.ops[opi];
         g_op = opi;
@@ -744,7 +751,9 @@ Outcome run_case(Case &c, const RunnerOpts &ro) {
         bool histlike = c.profile == "hist" || c.profile == "leak" || c.profile == "carry";
         if (op.kind == OP_DESTROY || op.kind == OP_ROUTE_FINALIZE) continue;
         if ((c.profile == "svx" || histlike) && op.kind == OP_GSSVX) {
-            if (op.x.lwork == -1) continue;
+            if (op.x.nprocs <= 0) { out.probes["illegal_argument_calls"]++; if (info != -1) add_viol(out, "C15", "illegal_nprocs_not_reported", fmt("nprocs=%d info=%ld", op.x.nprocs, info), opi); continue; }
+            if (op.x.lwork == -1) { out.probes["workspace_queries"]++; continue; }
+            if (leakprof && op.x.lwork > 0 && info > n + 1) { out.probes["workspace_too_small_returns"]++; continue; }
             eval_svx(x, opi, op, xo, A_before, Bin, a_hash0, b_hash0, x_hash0, svx_state);
             if (op.x.refact && op.x.usepr && (info == 0 || info == n + 1)) eval_usepr(x, opi, op, pr_before);
             if (op.x.refact) out.probes["refactorizations"]++;
@@ -805,6 +814,24 @@ Outcome run_case(Case &c, const RunnerOpts &ro) {
             }
         }
     }
+    if (leakprof) {
+        // C17: after the documented destroy calls nothing allocated inside the library may be left
+        std::vector<sim::LiveBlock> lb; sim::live_blocks(lb);
+        live_after_rep[rep] = sim::live_bytes();
+        out.probes["leak_histories_checked"]++;
+        if (!lb.empty()) {
+            std::map<std::string, std::pair<long, size_t>> bysite;
+            for (auto &b : lb) { auto &e = bysite[sim::site_name(b.site)]; e.first++; e.second += b.size; }
+            std::string detail; std::string first_site = sim::site_name(lb[0].site);
+            for (auto &kv : bysite) detail += fmt("%s: %ld blocks %zu bytes; ", kv.first.c_str(), kv.second.first, kv.second.second);
+            g_sig_suffix.clear();
+            add_viol(out, "C17", "leak", fmt("repetition %d: %zu blocks still allocated after the destroy calls: ", rep + 1, lb.size()) + detail, -1, "leak:" + first_site);
+            sim::forget_live_blocks();
+        }
+        // reset driver-side state for the next repetition
+        last_fact_ok = false; svx_state = SvxState(); x.cur_values = -1;
+    }
+    } // repetitions
     monitor_collect(out.viols, -1);
     monitor_probes(out.probes);
     g_case = nullptr; g_out = nullptr; g_sig_suffix.clear();
